@@ -29,7 +29,7 @@ structure Auth (τ : Type) where
   ce : τ        -- clear_entry  : tail enters the link
   cx : τ        -- clear_exit   : tail leaves the link
   train : Nat   -- 0 = `None` (the sentinel)
-  deriving Repr, BEq
+  deriving Repr, BEq, DecidableEq
 
 /-- `link_disp_auths`, indexed by link -/
 abbrev Table (τ : Type) := List (List (Auth τ))
@@ -171,6 +171,8 @@ def preOp (leaderGone : Bool) (net : Net) (spacing overlap inf : τ) (tbl : Tabl
     match authAt tbl L i with
     | none => false
     | some a =>
+      -- the front left the link for real (the authority was not closed by the early-exit branch)
+      (decide (a.ax < a.cx) || decide (inf ≤ a.ax)) &&
       -- a follower that entered behind this authority is still behind it
       (match authAt tbl L (i + 1) with
        | none => true
@@ -223,6 +225,14 @@ def planOk (net : Net) (spacing inf : τ) (tbl : Table τ) : Bool :=
   (List.range tbl.length).all fun L =>
     (link tbl L).all (wfB inf) && chainB (seqB spacing) (link tbl L) &&
     (net.conf L).all fun M => (link tbl L).all fun a => (link tbl M).all fun b => disjB a b
+
+/-- `links_blocked` (0 = `None`) covers the table: every real link that conflicts with a link on which some
+    authority is still held (`clear_exit = inf`) is marked blocked.  This is how `update_occupancy` /
+    `update_links_blocked` tell the routing search which links are "currently held". -/
+def blockedOk (net : Net) (inf : τ) (tbl : Table τ) (blocked : List Nat) : Bool :=
+  (List.range tbl.length).all fun y =>
+    (link tbl y).all fun a => !(decide (inf ≤ a.cx)) ||
+      (net.conf y).all fun x => x == 0 || blocked.getD x 0 != 0
 
 /-- on the real links `1 … n-1`, `conf` is irreflexive and symmetric (flip pairs are validated by
     `[Link]::validate`; lockout declarations are not validated at all) -/
